@@ -119,8 +119,12 @@ type Chain struct {
 	LastTxHash   []byte // what the host application supplied to the message in progress
 	LastMsgIndex int64
 
-	cbs       []Callback // callbacks of the step in progress
-	ModSvcs   map[string]string
+	cbs     []Callback // callbacks of the step in progress
+	ModSvcs map[string]string
+	// what the test module does from inside its callbacks, per context: [0] on a response callback,
+	// [1] on a state callback ("" | "pause" | "kill"); and the consumer it acts for
+	React     map[int][2]string
+	ReactCons map[int]string
 	HasModSvc bool // the test module service is registered
 	Prepared  bool // the zero-height preparation has run on this chain
 
@@ -180,6 +184,7 @@ func NewChain(p MParams, names []string, bal map[string]int64) *Chain {
 		App: app, K: app.ServiceKeeper, Height: 1, Now: NowOffset, Phase: "deliver", Params: p,
 		Names: append([]string{}, names...), Addr: map[string]sdk.AccAddress{}, NameOf: map[string]string{},
 		CtxIDs: map[string]int{}, CtxBytes: map[int][]byte{}, ModSvcs: map[string]string{},
+		React: map[int][2]string{}, ReactCons: map[int]string{},
 	}
 	c.Ctx = app.BaseApp.NewContext(false, tmproto.Header{Height: c.Height, Time: realTime(c.Now)})
 	c.Handler = service.NewHandler(c.K)
@@ -222,14 +227,33 @@ func NewChain(p MParams, names []string, bal map[string]int64) *Chain {
 	_ = c.K.RegisterResponseCallback(ModName, func(ctx sdk.Context, id tmbytes.HexBytes, outs []string, err error) {
 		a := activeChain
 		a.cbs = append(a.cbs, Callback{Kind: "resp", ID: a.CtxIDs[string(id)], Outs: append([]string{}, outs...), Err: err != nil})
+		a.react(ctx, id, 0)
 	})
 	_ = c.K.RegisterStateCallback(ModName, func(ctx sdk.Context, id tmbytes.HexBytes, cause string) {
 		a := activeChain
 		a.cbs = append(a.cbs, Callback{Kind: "state", ID: a.CtxIDs[string(id)], Outs: []string{}, Cause: cause})
+		a.react(ctx, id, 1)
 	})
 
 	service.EndBlockHook = nil
 	return c
+}
+
+// react: the test module answers a callback by calling the keeper for the context the callback is about
+func (c *Chain) react(ctx sdk.Context, id tmbytes.HexBytes, which int) {
+	n := c.CtxIDs[string(id)]
+	op := c.React[n][which]
+	if op == "" {
+		return
+	}
+	var err error
+	switch op {
+	case "pause":
+		err = c.K.PauseRequestContext(ctx, id, c.A(c.ReactCons[n]))
+	case "kill":
+		err = c.K.KillRequestContext(ctx, id, c.A(c.ReactCons[n]))
+	}
+	c.cbs = append(c.cbs, Callback{Kind: "react", ID: n, Outs: []string{}, Cause: op, Err: err != nil})
 }
 
 // RegisterTestModuleService registers a module service (finding D9; the repository's own
